@@ -21,6 +21,9 @@ def run(res, proofs_ok, proofs_why):
     if cfg is None:
         return
     wipe_part(res, binary)
+    # clause (b) without the shim: two daemons publishing in turn over one file (left whole, cut short behind its
+    # header, or cut inside it) under a client that stays attached and does not look after every publication
+    C03.sequence_part(res, "C04")
     # clause (a), the daemon dying right after a client started copying: the call gives up after its budget;
     # every later call, the update still in flight, answers from the snapshot the client held (publication 1)
     for prof in ("debug", "release"):
